@@ -112,6 +112,20 @@ func genAlign(t *rapid.T, name string) float32 {
 
 func genCase(t *rapid.T) Case {
 	w, h := genPos(t, "vw"), genPos(t, "vh")
+	dx, dy := genPos(t, "dx"), genPos(t, "dy")
+	// a common factor over the whole float32 range, applied to the viewBox or
+	// the target or both: ratios stay as generated, magnitudes do not
+	if rapid.IntRange(0, 2).Draw(t, "common") == 0 {
+		k := float32(math.Pow(10, rapid.Float64Range(-25, 25).Draw(t, "commonexp")))
+		switch rapid.IntRange(0, 2).Draw(t, "commonwhat") {
+		case 0:
+			w, h = w*k, h*k
+		case 1:
+			dx, dy = dx*k, dy*k
+		default:
+			w, h, dx, dy = w*k, h*k, dx*k, dy*k
+		}
+	}
 	var minX, minY float32
 	switch rapid.IntRange(0, 2).Draw(t, "origin") {
 	case 0:
@@ -128,7 +142,7 @@ func genCase(t *rapid.T) Case {
 	}
 	c := Case{
 		VB: [4]ops.F32{ops.F32(minX), ops.F32(minY), ops.F32(maxX), ops.F32(maxY)},
-		DX: ops.F32(genPos(t, "dx")), DY: ops.F32(genPos(t, "dy")),
+		DX: ops.F32(dx), DY: ops.F32(dy),
 		AX: ops.F32(genAlign(t, "ax")), AY: ops.F32(genAlign(t, "ay")),
 		Slice: rapid.Bool().Draw(t, "slice"),
 	}
@@ -155,6 +169,9 @@ func classify(c Case) (bool, uint64, []string) {
 	}
 	if r := math.Abs(math.Log10(ra / rb)); r > 3 {
 		labels = append(labels, "aspect-mismatch>1e3")
+	}
+	if m := math.Abs(math.Log10(float64(c.DX) * vw)); m > 19 {
+		labels = append(labels, "target-times-viewbox-beyond-1e+-19")
 	}
 	sl := byte(0)
 	if c.Slice {
